@@ -242,8 +242,9 @@ func (t *Tree) errorf(format string, args ...interface{}) {
 		byteNum++ // After the newline.
 		byteNum = pos - byteNum
 	}
-	format = fmt.Sprintf("yang: %s:%d:%d: %s", t.ParseName, t.lex.lineNumber(), byteNum, format)
-	panic(fmt.Errorf(format, args...))
+	// The name and position are data, not part of the format
+	msg := fmt.Sprintf(format, args...)
+	panic(fmt.Errorf("yang: %s:%d:%d: %s", t.ParseName, t.lex.lineNumber(), byteNum, msg))
 }
 
 // error terminates processing.
